@@ -154,7 +154,12 @@ func pathTriesToEscape(relPath string) bool {
 func checkOutputsAreWithinRepository(target *model.Target) (errs []error) {
 	workspaceRoot := config.Global.WorkspaceRoot
 
-	for _, output := range target.FileOutputs() {
+	for _, targetOutput := range target.AllOutputs() {
+		// file and directory outputs are paths relative to the package
+		if targetOutput.Type != "file" && targetOutput.Type != "dir" {
+			continue
+		}
+		output := targetOutput.Identifier
 		if path.IsAbs(output) {
 			errs = append(errs, fmt.Errorf(
 				"output %s for target %s is not relative",
